@@ -427,62 +427,10 @@ func globalNamed(p *Prog, pkg, name string) *ssa.Global {
 
 func c12Constructors(p *Prog, r *Report) {
 	const rule = "R12.2-constructor-round-trip"
-	// eval side: extension name -> parse function reached from the constructor's evaluator
-	evalParse := map[string]*ssa.Function{}
-	nee := p.fn(pEval, "newExtensionEval")
-	if nee == nil {
+	evalParse := extParseFuncs(p)
+	if evalParse == nil {
 		r.Anchor(rule, "eval.newExtensionEval")
 		return
-	}
-	info := p.Pkgs[pEval].TypesInfo
-	if fd := funcDecl(nee); fd != nil {
-		ast.Inspect(fd, func(n ast.Node) bool {
-			cc, ok := n.(*ast.CaseClause)
-			if !ok || len(cc.List) != 1 || len(cc.Body) != 1 {
-				return true
-			}
-			tv := info.Types[cc.List[0]]
-			if tv.Value == nil || tv.Value.Kind() != constant.String {
-				return true
-			}
-			ret, ok := cc.Body[0].(*ast.ReturnStmt)
-			if !ok || len(ret.Results) != 1 {
-				return true
-			}
-			call, ok := ret.Results[0].(*ast.CallExpr)
-			if !ok {
-				return true
-			}
-			id, ok := call.Fun.(*ast.Ident)
-			if !ok {
-				return true
-			}
-			ctor := p.fn(pEval, id.Name)
-			if ctor == nil {
-				return true
-			}
-			// the evaluator type the constructor builds
-			for _, b := range ctor.Blocks {
-				ret, ok := lastInstr(b).(*ssa.Return)
-				if !ok || len(ret.Results) != 1 {
-					continue
-				}
-				rt := ret.Results[0].Type()
-				if mi, ok := ret.Results[0].(*ssa.MakeInterface); ok {
-					rt = mi.X.Type()
-				}
-				ev := methodOf(p, rt, "Eval")
-				if ev == nil {
-					continue
-				}
-				for _, c := range callsIn(ev) {
-					if f := c.Common().StaticCallee(); f != nil && fnPkgPath(f) == pTypes && strings.HasPrefix(f.Name(), "Parse") {
-						evalParse[constant.StringVal(tv.Value)] = f
-					}
-				}
-			}
-			return true
-		})
 	}
 	kinds := []string{"Decimal", "IPAddr", "Datetime", "Duration"}
 	for _, k := range kinds {
@@ -662,4 +610,65 @@ func c12ParseErrors(p *Prog, r *Report) {
 		}
 	}
 	r.Check(n >= 15, rule, "sites", "-", itoa(n)+" fallible parser calls", "expected at least 15 fallible parser calls in package types, found "+itoa(n))
+}
+
+// extParseFuncs: extension constructor name -> the types.Parse* function its evaluator calls.
+func extParseFuncs(p *Prog) map[string]*ssa.Function {
+	// eval side: extension name -> parse function reached from the constructor's evaluator
+	evalParse := map[string]*ssa.Function{}
+	nee := p.fn(pEval, "newExtensionEval")
+	if nee == nil {
+		return nil
+	}
+	info := p.Pkgs[pEval].TypesInfo
+	if fd := funcDecl(nee); fd != nil {
+		ast.Inspect(fd, func(n ast.Node) bool {
+			cc, ok := n.(*ast.CaseClause)
+			if !ok || len(cc.List) != 1 || len(cc.Body) != 1 {
+				return true
+			}
+			tv := info.Types[cc.List[0]]
+			if tv.Value == nil || tv.Value.Kind() != constant.String {
+				return true
+			}
+			ret, ok := cc.Body[0].(*ast.ReturnStmt)
+			if !ok || len(ret.Results) != 1 {
+				return true
+			}
+			call, ok := ret.Results[0].(*ast.CallExpr)
+			if !ok {
+				return true
+			}
+			id, ok := call.Fun.(*ast.Ident)
+			if !ok {
+				return true
+			}
+			ctor := p.fn(pEval, id.Name)
+			if ctor == nil {
+				return true
+			}
+			// the evaluator type the constructor builds
+			for _, b := range ctor.Blocks {
+				ret, ok := lastInstr(b).(*ssa.Return)
+				if !ok || len(ret.Results) != 1 {
+					continue
+				}
+				rt := ret.Results[0].Type()
+				if mi, ok := ret.Results[0].(*ssa.MakeInterface); ok {
+					rt = mi.X.Type()
+				}
+				ev := methodOf(p, rt, "Eval")
+				if ev == nil {
+					continue
+				}
+				for _, c := range callsIn(ev) {
+					if f := c.Common().StaticCallee(); f != nil && fnPkgPath(f) == pTypes && strings.HasPrefix(f.Name(), "Parse") {
+						evalParse[constant.StringVal(tv.Value)] = f
+					}
+				}
+			}
+			return true
+		})
+	}
+	return evalParse
 }
